@@ -220,6 +220,14 @@ def run_case(case):
                 add('orbit:relation:pal-hk', 'h=%r k=%r e=%r pomega=%r' % (o.pal_h, o.pal_k, o.e, pom))
             if o.inc < math.pi / 2 and (abs(o.pal_ix - 2 * math.sin(o.inc / 2) * math.cos(o.Omega)) > tola * 4 or abs(o.pal_iy - 2 * math.sin(o.inc / 2) * math.sin(o.Omega)) > tola * 4):
                 add('orbit:relation:pal-ixiy', 'ix=%r iy=%r inc=%r Omega=%r' % (o.pal_ix, o.pal_iy, o.inc, o.Omega))
+            # Pal constructor: the particle rebuilt from (a, lambda, k, h, ix, iy) must be the particle the elements came from
+            if o.inc < math.pi / 2 and 0 < o.e < 0.95 and o.a > 0:
+                pp = clib.reb_particle_from_pal(c_double(G), prim, c_double(m), c_double(o.a), c_double(o.l), c_double(o.pal_k), c_double(o.pal_h), c_double(o.pal_ix), c_double(o.pal_iy))
+                counters['pal_rebuilds'] = counters.get('pal_rebuilds', 0) + 1
+                rr_ = math.sqrt((p.x - prim.x) ** 2 + (p.y - prim.y) ** 2 + (p.z - prim.z) ** 2)
+                dd_ = math.sqrt((pp.x - p.x) ** 2 + (pp.y - p.y) ** 2 + (pp.z - p.z) ** 2)
+                if dd_ > (1e-11 * cond * cancel + 64 * tola) * max(rr_, o.a):
+                    add('pal:rebuilt-particle-differs' + (':e-0.2-0.3' if 0.2 < o.e < 0.3 else ''), 'a=%r e=%r inc=%r: particle from pal elements is %.3e away (r=%r)' % (o.a, o.e, o.inc, dd_, rr_))
             ev_ = [o.evec.x, o.evec.y, o.evec.z]
             hv_ = [o.hvec.x, o.hvec.y, o.hvec.z]
             if abs(math.sqrt(sum(q * q for q in ev_)) - o.e) > 16 * EPS * (1 + o.e):
